@@ -27,7 +27,7 @@ def oracle_automaton(c: Case, tr: Trace) -> Optional[str]:
         if t == 'E':
             stack.append([i, 'fresh'])
             continue
-        if t == 'ra':
+        if t in ('ra', 'sc', 'ss', 'sd'):
             continue
         if not stack:
             return f"event '{l}' outside any invocation"
